@@ -316,7 +316,80 @@ func init() {
 	})
 }
 
+// c15NoLeak: what one client's conditional cold fetch withheld must not surface in a later client's request:
+// after a cold GET with a validator (or Range), requests that are passed through (hit-for-pass key, POST)
+// by clients that sent none must reach the origin without conditional headers and be answered in full.
+func c15NoLeak(c *Ctx) {
+	if !c.Want("no-leak-between-requests") || c.Shard != 0 {
+		return
+	}
+	st := c.Stat("no-leak-between-requests", "enumeration")
+	st.Bounds = "conditional in {If-None-Match match, If-Modified-Since match, Range} on a cold cacheable GET, then {GET on a hit-for-pass key, POST, HEAD on a hit-for-pass key, cold GET of another key} by clients without conditionals, in every order (24) "
+	cfg := env.BasicConfig(config.CacheConfig{})
+	e := getEnv(cfg, "basic")
+	conds := map[string]http.Header{
+		"inm-match": {"If-None-Match": {c15ETag}},
+		"ims-match": {"If-Modified-Since": {c15LM}},
+		"range":     {"Range": {"bytes=0-3"}},
+	}
+	followers := []env.Req{{Method: "GET", URI: "/hfp"}, {Method: "POST", URI: "/post"}, {Method: "HEAD", URI: "/hfp"}, {Method: "GET", URI: "/cold2"}}
+	var perms [][]int
+	var rec func(cur []int, used int)
+	rec = func(cur []int, used int) {
+		if len(cur) == len(followers) {
+			perms = append(perms, append([]int(nil), cur...))
+			return
+		}
+		for i := range followers {
+			if used&(1<<uint(i)) == 0 {
+				rec(append(cur, i), used|1<<uint(i))
+			}
+		}
+	}
+	rec(nil, 0)
+	for cname, ch := range conds {
+		for _, pm := range perms {
+			freshCaches(cfg)
+			vtime.Set(vtime.Base)
+			e.Respond = c15Origin(false)
+			e.Do(env.Req{URI: "/hfp", Rid: "pro"}) // makes /hfp a hit-for-pass key
+			e.Respond = c15Origin(true)
+			e.Do(env.Req{URI: "/cold1", Rid: "c", Header: ch})
+			e.Events()
+			for _, fi := range pm {
+				rq := followers[fi]
+				rq.Rid = "f"
+				e.Respond = c15Origin(rq.URI != "/hfp")
+				r := e.Do(rq)
+				an := analyze(e.Events())
+				st.Execs++
+				kase := map[string]interface{}{"first_client": cname, "order": pm, "follower": rq.Method + " " + rq.URI}
+				viol := func(sig, msg string) {
+					c.Violation("no-leak-between-requests", sig, fmt.Sprintf("after a cold GET with %s by another client, %s %s (no conditional headers): %s", cname, rq.Method, rq.URI, msg), nil, kase, nil)
+				}
+				if r.Status != 200 {
+					viol(fmt.Sprintf("unconditional-client-got-%d", r.Status), fmt.Sprintf("label %s", r.XStatus))
+				} else if rq.Method != "HEAD" {
+					if dec, err := refDecode(r.Header.Get("Content-Encoding"), r.Body); err != nil || !bytes.Equal(dec, c15Full) {
+						viol("body-not-the-resource", fmt.Sprintf("%q", trunc(dec)))
+					}
+				}
+				for _, oc := range an.Reqs["f"].Calls {
+					for _, hn := range []string{"If-None-Match", "If-Modified-Since", "Range"} {
+						if v := oc.Header.Get(hn); v != "" {
+							viol("conditional-of-another-client-forwarded", fmt.Sprintf("the origin received %s: %s", hn, v))
+						}
+					}
+				}
+			}
+		}
+	}
+	st.States, st.Transitions, st.Nontrivial = st.Execs, st.Execs, st.Execs
+	st.NOutcomes = int(st.Execs)
+}
+
 func c15Mix(c *Ctx) {
+	c15NoLeak(c)
 	// several locations with their own additions on one server: a request gets the additions of ITS location only
 	if c.Want("locations-do-not-mix") && c.Shard == 0 {
 		st2 := c.Stat("locations-do-not-mix", "enumeration")
